@@ -308,6 +308,11 @@ def generate_section(section, repo_root, em, res):
     dropped_hints = set()
     ek = [rtok.key(t) for t in e_toks]
     rk = [rtok.key(t) for t in R]
+    owner_early = {}
+    for path, it in itm.walk(e_items):
+        if it.kind == 'fn' or not it.children:
+            for p_ in range(it.start, it.end):
+                owner_early[p_] = path
     if ek != rk:
         res.equal = False
         sm = difflib.SequenceMatcher(a=ek, b=rk, autojunk=False)
@@ -338,7 +343,8 @@ def generate_section(section, repo_root, em, res):
                 pre_b[i1].extend(R[j1:j2])
                 for p in range(i1, i2):
                     deleted[p] = True
-            res.edits.append({'repo_line': R[j1].line if j1 < len(R) else (R[-1].line if R else 0),
+            res.edits.append({'item': owner_early.get(i1) or owner_early.get(i1 - 1) or owner_early.get(i2),
+                              'repo_line': R[j1].line if j1 < len(R) else (R[-1].line if R else 0),
                               'was': tokens_text(e_toks[i1:i2])[:200], 'now': tokens_text(R[j1:j2])[:200]})
 
     # item line ranges
